@@ -8,7 +8,8 @@
    7f110fb); the theorems are stated at full strength for the repaired code. *)
 From Coq Require Import Reals List String.
 From SpdVerif Require Import Base.Rx Base.PolingBase Gen.Poling Gen.Sweep Spec.SweepPaths Model.Sweep
-  Proofs.C18_table Proofs.C18_frame Proofs.C18_sweep Proofs.C18_all.
+  Proofs.C18_table Proofs.C18_frame Proofs.C18_sweep Proofs.C18_all Proofs.C18_external.
+From SpdVerif Require Model.Optics Model.Fresnel Gen.Beam Proofs.C13_snell.
 Import ListNotations.
 Local Open Scope R_scope.
 
@@ -42,6 +43,28 @@ Theorem C18_value : forall snell csign p sl u, In (p, (sl, u)) spec_table -> sl 
   exists f, get_setter snell csign p = Some f /\ forall s v, value_guard snell sl u v s ->
     assoc (config_key sl) (config_num (f s v)) = Some (expected_value snell sl u v s).
 Proof. exact value_all. Qed.
+
+(* external angle, against the Snell contract of C13 (C13_snell_forward / C13_snell_roundtrip_partial): the generated setter with
+   its Snell oracle instantiated by C13's generated calc_internal_theta_from_external (nm = the Nelder-Mead kernel, index = the
+   crystal's index along a direction for this beam's wavelength and polarization).  IF the optimiser returns th in [0, pi/2] with
+   residual <= r for e = |v| deg (e <= M < pi/2), THEN the stored internal angle is th, it satisfies Snell's law within r,
+   |sin e - n(th) sin th| <= r, the view shows th in degrees (4 decimals), the azimuth is untouched, and the external angle read back
+   through Snell is within r / cos M of e.  PARTIAL in the same sense as C13: convergence of the simplex is checked per input. *)
+Theorem C18_external_angle_partial : forall nm index pol csign p b, In (p, (SBeamThetaExternal b, UDeg)) spec_table ->
+  exists f, get_setter (snell_of nm index pol) csign p = Some f /\ forall s v r M,
+    let bm := get_beam b s in
+    let e := Rabs (v * (PI / 180)) in
+    let n_along := index (s_crystal_setup s) bm in
+    let th := Proofs.C13_snell.theta_star nm n_along (to13 pol bm) e in
+    0 <= b_phi bm < 2 * PI -> - PI < b_theta bm <= PI ->
+    e <= M -> M < PI / 2 -> 0 <= th <= PI / 2 ->
+    Gen.Beam.snell_cost_gen n_along (to13 pol bm) e th <= r ->
+    let bm' := get_beam b (f s v) in
+    b_theta bm' = th /\ b_phi bm' = b_phi bm /\
+    Rabs (sin e - n_along (Model.Optics.normalize (Model.Fresnel.polar_dir (b_phi bm') (b_theta bm'))) * sin (b_theta bm')) <= r /\
+    assoc (config_key (SBeamThetaExternal b)) (config_num (f s v)) = Some (round4 (b_theta bm' / (PI / 180))) /\
+    (sin e + r <= sin M -> Rabs (Gen.Beam.theta_external_gen n_along (to13 pol bm') - e) <= r / cos M).
+Proof. exact external_contract. Qed.
 
 (* THz = 1e12 cycles per second: the stored angular frequency is 2 pi v 1e12 rad/s *)
 Theorem C18_frequency_thz : forall snell csign p b, In (p, (SBeamFrequency b, UThz)) spec_table ->
@@ -127,6 +150,10 @@ Example C18_nonvacuous_guards : forall snell s,
   value_guard snell (SBeamWavelength BPump) UNm 775 s /\ value_guard snell (SBeamFrequency BSignal) UThz 200 s /\ slot_guard SCrystalTheta s.
 Proof. intros. cbn. repeat split; Lra.lra. Qed.
 
+Example C18_nonvacuous_external : In ("signal.theta_external_deg"%string, (SBeamThetaExternal BSignal, UDeg)) spec_table /\
+  Rabs (2 * (PI / 180)) <= 10 * (PI / 180) /\ 10 * (PI / 180) < PI / 2.
+Proof. pose proof PI_RGT_0. split; [cbn; tauto|]. split; [rewrite Rabs_right|]; Lra.lra. Qed.
+
 Example C18_nonvacuous_beam : beam_ok (mk_beam (mk_beam_waist 1e-4 1e-4) 1.2e15 0%nat 0 0).
 Proof. unfold beam_ok. cbn. pose proof PI_RGT_0. Lra.lra. Qed.
 
@@ -136,6 +163,7 @@ Print Assumptions C18_setters_match.
 Print Assumptions C18_frame.
 Print Assumptions C18_value.
 Print Assumptions C18_poling_period.
+Print Assumptions C18_external_angle_partial.
 Print Assumptions C18_frequency_thz.
 Print Assumptions C18_try_new.
 Print Assumptions C18_order.
